@@ -114,7 +114,20 @@ void h_run(void) {
   sim_fiber_mode();
   fiber_manager_init(c.threads);
   sem_p = h_dirty_alloc(sizeof *sem_p);
-  fiber_semaphore_init(&sem, sinit);
+  /* large values: the semaphore is created with `big` more units, which are then taken out again in one step
+   * (what `big` successful trywaits would leave behind); the value has to read back exactly in between */
+  static const int bigs[] = {254, 255, 32767, 65535, 65536, 1 << 20, 0x7ffffff0};
+  const int big = wl_pct(10) ? bigs[wl_pick(7)] : 0;
+  fiber_semaphore_init(&sem, sinit + big);
+  if (big) {
+    if (fiber_semaphore_getvalue(&sem) != sinit + big)
+      sim_violation("C06-value-at-rest", "semaphore created with %d units reports %d", sinit + big, fiber_semaphore_getvalue(&sem));
+    for (int k = 0; k < 3; k++) { /* a few real operations up there */
+      if (fiber_semaphore_trywait(&sem) != FIBER_SUCCESS) sim_violation("C06-trywait-failed-with-units", "trywait failed although %d units are available", sinit + big);
+      fiber_semaphore_post(&sem);
+    }
+    atomic_fetch_sub(&sem.counter, big);
+  }
   fiber_t* f[MAXFB + 16];
   if (nfib > MAXFB + 16) sim_violation("SIM-harness-table", "%d fibers", nfib);
   for (int i = 0; i < nfib; i++) f[i] = fiber_create(STK, fib, (void*)(intptr_t)i);
